@@ -543,6 +543,13 @@ def fam_resubscribe(g, prefix, n_random):
         g.tag = 0
         inner = g.ops_int()[name](["flaky", "0", "k", [n_(1), e_(5)], [n_(1), n_(2), C_]])
         out.append(case("%s-%d" % (prefix, i), [["counter", "k"], ["sub", ["retry", "3", inner], NOREACT]])); i += 1
+    # attempts that differ: what the first attempt left behind must not leak into the second
+    ops_all = dict(g.ops_int()); ops_all.update(g.ops_final())
+    for name in sorted(ops_all):
+        for scripts in ([[n_(1), e_(5)], [C_]], [[e_(5)], [n_(2), n_(2), C_]], [[n_(1), n_(2), e_(5)], [n_(3), C_]]):
+            g.tag = 0
+            inner = ops_all[name](["flaky", "0", "k"] + scripts)
+            out.append(case("%s-%d" % (prefix, i), [["counter", "k"], ["sub", ["retry", "2", inner], NOREACT]])); i += 1
     for j in range(n_random):
         g.tag = 0
         p = g.pipe_typed(g.r.randint(1, 3))
@@ -554,6 +561,13 @@ def fam_resubscribe(g, prefix, n_random):
         steps = [["subject", "a", "plain"], ["def", "x", p], ["sub", ["ref", "x"], NOREACT], ["hnext", "a", "1"], ["hnext", "a", "2"],
                  ["sub", ["ref", "x"], NOREACT], ["hnext", "a", "1"], ["hnext", "a", "2"], ["hnext", "a", "3"], ["hcomplete", "a"]]
         out.append(case("%s-hot-%d" % (prefix, i), steps)); i += 1
+        # the second subscriber arrives late and sees nothing but the terminal
+        for term in (["hcomplete", "a"], ["herror", "a", "6"]):
+            g.tag = 0
+            p = ops[name](["ref", "a"])
+            steps = [["subject", "a", "plain"], ["def", "x", p], ["sub", ["ref", "x"], NOREACT], ["hnext", "a", "1"], ["hnext", "a", "2"],
+                     ["sub", ["ref", "x"], NOREACT], term]
+            out.append(case("%s-hot-%d" % (prefix, i), steps)); i += 1
     return out
 
 def fam_release(g, prefix, n_random):
